@@ -67,45 +67,70 @@ def cmd_import(sid, wt, prop):
     return 0
 
 
-def cmd_run(sid, tier='quick', props=None, extra=''):
+def cmd_run(sid, tier='quick', props=None, extra='', in_repo=False):
+    """Run the property's check against the seeded change.  Default: in a scratch worktree of /repo's HEAD under
+    /tmp with the patch applied (VERIF_REPO points the check at it; evidence and replays go to a scratch
+    directory), removed afterwards.  --in-repo: git -C /repo apply, run, git -C /repo checkout -- . """
     d = os.path.join(SEEDED, sid)
     meta = json.load(open(os.path.join(d, 'meta.json')))
     props = props or [meta['property']]
-    rc, o = sh('git -C /repo status --porcelain')
-    if o.strip():
-        print('/repo is not clean:', o)
-        return 2
     results = []
-    for prop in props:
-        ev = os.path.join(ROOT, 'evidence', '%s.json' % prop)
-        ev_bak = ev + '.bak-seeded'
-        if os.path.exists(ev):
-            shutil.copy(ev, ev_bak)
-        t0 = time.time()
-        try:
-            rc, o = sh('git -C /repo apply %s' % os.path.join(d, 'patch.diff'))
-            if rc != 0:
-                print('patch does not apply:', o)
-                return 2
-            rc, o = sh('%s sim/check.py %s --tier %s %s' % (PY, prop, tier, extra), cwd=ROOT, timeout=7200)
-        finally:
-            sh('git -C /repo checkout -- .')
-            if os.path.exists(ev_bak):
-                shutil.move(ev_bak, ev)
-        viol = [l for l in o.splitlines() if l.startswith('VIOLATION')]
-        desc = [l.strip() for l in o.splitlines() if l.startswith('  ') and 'observed' in l][:2]
-        r = {'property': prop, 'tier': tier, 'cmd': '%s sim/check.py %s --tier %s %s' % (PY, prop, tier, extra), 'exit': rc,
-             'violation_lines': len(viol), 'first': desc[:1], 'wall_s': round(time.time() - t0, 1),
-             'caught': rc == 1 and bool(viol)}
-        results.append(r)
-        print(sid, json.dumps(r, ensure_ascii=False))
-        if rc not in (0, 1):
-            print(o[-1500:])
+    scratch = '/tmp/seeded_run_%s_%d' % (sid, os.getpid())
+    outdir = scratch + '_out'
+    env = dict(os.environ)
+    if in_repo:
+        rc, o = sh('git -C /repo status --porcelain')
+        if o.strip():
+            print('/repo is not clean:', o)
+            return 2
+    else:
+        rc, o = sh('git -C /repo worktree add -q --detach %s HEAD' % scratch)
+        if rc != 0:
+            print('cannot create scratch worktree:', o)
+            return 2
+        rc, o = sh('git -C %s apply %s' % (scratch, os.path.join(d, 'patch.diff')))
+        if rc != 0:
+            print('patch does not apply:', o)
+            sh('git -C /repo worktree remove --force %s' % scratch)
+            return 2
+        env['VERIF_REPO'] = scratch
+    os.makedirs(outdir, exist_ok=True)
+    env['VERIF_EVIDENCE_DIR'] = os.path.join(outdir, 'evidence')
+    env['VERIF_REPLAY_DIR'] = os.path.join(outdir, 'replays')
+    try:
+        for prop in props:
+            t0 = time.time()
+            try:
+                if in_repo:
+                    rc, o = sh('git -C /repo apply %s' % os.path.join(d, 'patch.diff'))
+                    if rc != 0:
+                        print('patch does not apply:', o)
+                        return 2
+                rc, o = sh('%s sim/check.py %s --tier %s %s' % (PY, prop, tier, extra), cwd=ROOT, env=env, timeout=7200)
+            finally:
+                if in_repo:
+                    sh('git -C /repo checkout -- .')
+            viol = [l for l in o.splitlines() if l.startswith('VIOLATION')]
+            desc = [l.strip() for l in o.splitlines() if l.startswith('  ') and ('observed' in l or 'gives' in l or 'fails again' in l)][:2]
+            r = {'property': prop, 'tier': tier, 'cmd': '%s sim/check.py %s --tier %s %s' % (PY, prop, tier, extra), 'exit': rc,
+                 'violation_lines': len(viol), 'first': desc[:1], 'wall_s': round(time.time() - t0, 1),
+                 'caught': rc == 1 and bool(viol), 'tree': 'git -C /repo apply' if in_repo else 'scratch worktree of /repo HEAD + patch (VERIF_REPO)',
+                 'repo_head': sh('git -C /repo rev-parse --short HEAD')[1].strip()}
+            results.append(r)
+            print(sid, json.dumps(r, ensure_ascii=False))
+            if rc not in (0, 1):
+                print(o[-1500:])
+    finally:
+        if not in_repo:
+            sh('git -C /repo worktree remove --force %s' % scratch)
+            shutil.rmtree(scratch, ignore_errors=True)
+        shutil.rmtree(outdir, ignore_errors=True)
     meta['checks'] = [c for c in meta.get('checks', []) if (c['property'], c['tier']) not in [(r['property'], r['tier']) for r in results]] + results
     json.dump(meta, open(os.path.join(d, 'meta.json'), 'w'), indent=1, ensure_ascii=False)
-    rc, o = sh('git -C /repo status --porcelain')
-    if o.strip():
-        print('WARNING: /repo not clean after run:', o)
+    if in_repo:
+        rc, o = sh('git -C /repo status --porcelain')
+        if o.strip():
+            print('WARNING: /repo not clean after run:', o)
     return 0
 
 
@@ -119,7 +144,7 @@ def main():
         props = None
         if '--props' in sys.argv:
             props = sys.argv[sys.argv.index('--props') + 1].split(',')
-        sys.exit(cmd_run(sys.argv[2], tier, props))
+        sys.exit(cmd_run(sys.argv[2], tier, props, in_repo='--in-repo' in sys.argv))
     if sys.argv[1] == 'runall':
         for sid in sorted(os.listdir(SEEDED)):
             if os.path.exists(os.path.join(SEEDED, sid, 'meta.json')):
